@@ -193,7 +193,7 @@ func runC12(r *ev.Recorder) {
 	r.Rule = fmt.Sprintf("LitByte: all 256 bytes (go/types evaluation). LitRune: every valid code point below %U plus plane boundaries and surrogate edges. "+
 		"Lit(string): every byte string of length <= 2 over all 256 byte values (raw and gofmt-formatted), and every string of length <= %d over %d representative units "+
 		"in %d syntactic contexts (raw output scanned with go/scanner against the token skeleton of the same statement with an identifier in the hole; strconv.Unquote == input). "+
-		"distinct_nontrivial counts distinct inputs that need escaping or a raw/escaped choice (any byte outside printable ASCII, or a quote, backquote or backslash)", runeLimit, maxLen, len(c12Units), len(c12Contexts))
+		"Also Files holding 40..5000 distinct string literals followed by repeats of the oldest: every literal token in order keeps its own value. distinct_nontrivial counts distinct inputs that need escaping or a raw/escaped choice (any byte outside printable ASCII, or a quote, backquote or backslash)", runeLimit, maxLen, len(c12Units), len(c12Contexts))
 	r.Assume = []string{"go/scanner, strconv.Unquote and go/types of the installed toolchain define what a literal's value is",
 		"strings longer than the stated bounds or using other characters than the 26 units are outside the bound"}
 
@@ -279,6 +279,54 @@ func runC12(r *ev.Recorder) {
 	})
 	r.Count("byte_strings_len_le_2", 1+256+65536)
 
+	// many literals in ONE File (and repeats of earlier ones): every literal token, in order,
+	// must still have exactly its own value
+	for _, n := range []int{40, 300, 1000, 5000} {
+		var want []string
+		f := jen.NewFile("p")
+		f.NoFormat = true
+		var items []jen.Code
+		mkstr := func(i int) string { return fmt.Sprintf("entry %d \" \n \xff %s", i, c12Units[i%len(c12Units)]) }
+		for i := 0; i < n; i++ {
+			want = append(want, mkstr(i))
+			items = append(items, jen.Lit(mkstr(i)))
+		}
+		for i := 0; i < 80 && i < n; i++ { // repeats, oldest first
+			want = append(want, mkstr(i))
+			items = append(items, jen.Lit(mkstr(i)))
+		}
+		f.Var().Id("table").Op("=").Index().String().Values(items...)
+		o := jh.RenderFile(f)
+		r.Eval(int64(len(want)))
+		r.Distinct(fmt.Sprintf("many-literals-%d", n))
+		msg := ""
+		if !o.OK() {
+			msg = "render failed: " + jh.Short(o.String(), 200)
+		} else {
+			toks, _, nerr := jh.Scan(o.Out, true)
+			var got []string
+			for _, t := range toks {
+				if t.Tok == token.STRING {
+					v, _ := strconv.Unquote(t.Lit)
+					got = append(got, v)
+				}
+			}
+			if nerr != 0 || len(got) != len(want) {
+				msg = fmt.Sprintf("%d scanner errors, %d string literals, want %d", nerr, len(got), len(want))
+			} else {
+				for i := range want {
+					if got[i] != want[i] {
+						msg = fmt.Sprintf("literal #%d of %d in one File has value %q, want %q", i, len(want), got[i], want[i])
+						break
+					}
+				}
+			}
+		}
+		if msg != "" {
+			r.Violate(ev.Violation{Signature: "c12:many-literals-in-one-file", What: fmt.Sprintf("a File with %d distinct string literals followed by repeats of the first 80: %s", n, msg), Case: ev.JSON(c12Case{Kind: "many", Byte: n}), Detail: msg})
+		}
+	}
+
 	// strings over the representative units
 	n := int64(len(c12Units))
 	var total int64 = 0
@@ -327,6 +375,8 @@ func replayC12(raw json.RawMessage) (bool, string) {
 	}
 	var msg string
 	switch c.Kind {
+	case "many":
+		return true, "the many-literals case is replayed by running the check"
 	case "string":
 		b, _ := hex.DecodeString(c.Hex)
 		if c.Ctx < 0 {
